@@ -299,7 +299,43 @@ func genSanity(g *hx.Gen, r *hx.Rand) {
 	g.Emit("blk %s", strings.Join(parts, " | "))
 }
 
+// histories through the real save / rollback processors: batched withdrawals (several hashes in one
+// transaction, all versions), several blocks, rollbacks of the tip; hashes are not reused across
+// blocks (reuse is the known V2 finding and has its own witness).
+func genFlow(g *hx.Gen, r *hx.Rand) {
+	hs := shuffle(r, []int{1, 2, 3, 4, 5, 6, 7, 8})
+	var steps []string
+	depth := 0
+	nb := 1 + r.Intn(4)
+	for b := 0; b < nb && len(hs) > 0; b++ {
+		if depth > 0 && r.Chance(25) {
+			steps = append(steps, "R")
+			depth--
+			continue // the rolled back hashes are not used again in this history
+		}
+		ntx := 1 + r.Intn(2)
+		var txs []string
+		for k := 0; k < ntx && len(hs) > 0; k++ {
+			n := 1 + r.Intn(3)
+			if n > len(hs) {
+				n = len(hs)
+			}
+			txs = append(txs, fmt.Sprintf("v%d:%s", r.Pick(0, 1, 1, 2), joinInts(hs[:n], "+")))
+			hs = hs[n:]
+		}
+		steps = append(steps, "S "+strings.Join(txs, " "))
+		depth++
+	}
+	if r.Chance(15) && depth > 0 {
+		steps = append(steps, "R")
+	}
+	g.Emit("wflow %s", strings.Join(steps, " / "))
+}
+
 func gen(g *hx.Gen) {
+	for i := 0; i < g.N(150, 1500); i++ {
+		genFlow(g, g.R.Fork(uint64(2000000+i)))
+	}
 	for i := 0; i < g.N(6000, 120000); i++ {
 		genChk(g, g.R.Fork(uint64(i)))
 	}
